@@ -1,0 +1,260 @@
+//go:build verif
+
+package basicnode
+
+// Contracts for govc (see /verif/DESIGN.md §5 C01, C11, C12). Comment-only;
+// compiled only under the build tag "verif".
+
+// ---- plainMap: representation invariant ----
+//
+// mapinv(w, n): the first n entries of the table w.t are exactly the content
+// of the lookup map w.m (same keys, same values), so that iteration order
+// (the table) and lookup (the map) agree: every table entry is in the map with
+// the same value, and the map has exactly n keys (so, by counting, table keys
+// are pairwise distinct and the map has no key that is not in the table; a key
+// is accepted only if it is not yet in the map, see AssembleEntry/AssignString).
+
+//@ pred mapinv(w *plainMap, n mathint) =
+//@      w != nil && w.m != nil && 0 <= n && n <= len(w.t) && len(w.m) == n
+//@   && (forall i mathint :: 0 <= i && i < n ==> indom(w.m, w.t[i].k) && w.m[w.t[i].k] == w.t[i].v && w.t[i].v != nil)
+
+//@ pure func wipn(ma *plainMap__Assembler) mathint = (ma.state == maState_expectValue || ma.state == maState_midValue) ? len(ma.w.t) - 1 : len(ma.w.t)
+
+// wip(ma): invariant of a map assembler that has begun (BeginMap done): all completed entries are
+// in both structures; while a value is pending the last table entry holds the pending key, which
+// is not yet in the lookup map.
+//@ pred wip(ma *plainMap__Assembler) =
+//@      ma != nil && ma.state <= maState_finished && mapinv(ma.w, wipn(ma))
+//@   && ((ma.state == maState_expectValue || ma.state == maState_midValue) ==> len(ma.w.t) >= 1 && !indom(ma.w.m, ma.w.t[len(ma.w.t)-1].k))
+
+// ---- plainMap: reads ----
+
+//@ func (*plainMap).LookupByString(key) (r, err)
+//@   requires mapinv(n, len(n.t))
+//@   assigns nothing
+//@   ensures[C01] indom(n.m, key) ==> err == nil && r == n.m[key]
+//@   ensures[C01] !indom(n.m, key) ==> r == nil && iserr(err, "datamodel.ErrNotExists")
+//@   ensures[C01] forall i mathint :: 0 <= i && i < len(n.t) && n.t[i].k == key ==> err == nil && r == n.t[i].v
+//@   ensures[C01] err != nil ==> (forall i mathint :: 0 <= i && i < len(n.t) ==> n.t[i].k != key)
+
+//@ func (*plainMap).Length() (l)
+//@   requires n != nil
+//@   assigns nothing
+//@   ensures[C01] l == len(n.t)
+
+//@ func (*plainMap).MapIterator() (it)
+//@   requires n != nil
+//@   assigns nothing
+//@   ensures[C01,C11] fresh(it) && dyntype(it, "*plainMap_MapIterator") && unbox(it, "*plainMap_MapIterator").n == n && unbox(it, "*plainMap_MapIterator").idx == 0
+
+//@ func (*plainMap_MapIterator).Done() (d)
+//@   requires itr != nil && itr.n != nil
+//@   assigns nothing
+//@   ensures[C01] d == (itr.idx >= len(itr.n.t))
+
+//@ func (*plainMap_MapIterator).Next() (k, v, err)
+//@   requires itr != nil && itr.n != nil && 0 <= itr.idx
+//@   assigns itr.idx
+//@   ensures[C01] old(itr.idx) < len(itr.n.t) ==> err == nil && k == iface(&itr.n.t[old(itr.idx)].k) && v == itr.n.t[old(itr.idx)].v && itr.idx == old(itr.idx) + 1
+//@   ensures[C01] old(itr.idx) >= len(itr.n.t) ==> iserr(err, "datamodel.ErrIteratorOverread") && k == nil && v == nil && itr.idx == old(itr.idx)
+
+// ---- plainMap: builder / assembler ----
+
+//@ func (Prototype__Map).NewBuilder() (nb)
+//@   ensures[C01,C11] fresh(nb) && dyntype(nb, "*plainMap__Builder")
+//@   ensures[C01] unbox(nb, "*plainMap__Builder").plainMap__Assembler.state == maState_initial && fresh(unbox(nb, "*plainMap__Builder").plainMap__Assembler.w)
+
+//@ func (*plainMap__Builder).Build() (n)
+//@   requires nb != nil && nb.plainMap__Assembler.state == maState_finished
+//@   assigns nothing
+//@   ensures[C01,C12] n == iface(nb.plainMap__Assembler.w)
+
+//@ func (*plainMap__Builder).Reset()
+//@   requires nb != nil
+//@   assigns nb.plainMap__Assembler
+//@   ensures[C11] fresh(nb.plainMap__Assembler.w) && nb.plainMap__Assembler.state == maState_initial
+//@   ensures[C11] nb.plainMap__Assembler.ka.ma == nil && nb.plainMap__Assembler.va.ma == nil
+
+//@ func (*plainMap__Assembler).BeginMap(sizeHint) (ma, err)
+//@   requires na != nil && na.w != nil && na.state == maState_initial && sizeHint <= 1099511627776
+//@   assigns na.w.t, na.w.m
+//@   ensures[C01,C12] err == nil && ma == iface(na) && wip(na) && len(na.w.t) == 0 && na.state == maState_initial
+//@   ensures[C11] fresh(na.w.t) && fresh(na.w.m)
+
+//@ func (*plainMap__Assembler).AssembleEntry(k) (va, err)
+//@   requires wip(ma) && ma.state == maState_initial
+//@   assigns ma.state, ma.w.t, cells(ma.w.t), ma.va.ma
+//@   ensures[C12] indom(old(ma.w.m), k) ==> va == nil && iserr(err, "datamodel.ErrRepeatedMapKey") && ma.state == maState_initial && ma.w.t == old(ma.w.t) && wip(ma)
+//@   ensures[C01,C12] !indom(old(ma.w.m), k) ==> err == nil && va == iface(&ma.va) && ma.va.ma == ma && ma.state == maState_midValue
+//@         && len(ma.w.t) == old(len(ma.w.t)) + 1 && ma.w.t[len(ma.w.t)-1].k == k && wip(ma)
+//@   ensures[C01,C12] !indom(old(ma.w.m), k) ==> (forall i mathint :: 0 <= i && i < old(len(ma.w.t)) ==> ma.w.t[i] == old(ma.w.t[i]))
+//@   ensures[C11] ma.w == old(ma.w) && ma.w.m == old(ma.w.m)
+
+//@ func (*plainMap__Assembler).AssembleKey() (ka)
+//@   requires wip(ma) && ma.state == maState_initial
+//@   assigns ma.state, ma.ka.ma
+//@   returns ka *plainMap__KeyAssembler
+//@   ensures[C01,C12] ka == iface(&ma.ka) && ma.ka.ma == ma && ma.state == maState_midKey && wip(ma)
+//@   ensures[C11] ma.w == old(ma.w) && ma.w.t == old(ma.w.t) && ma.w.m == old(ma.w.m)
+
+//@ func (*plainMap__Assembler).AssembleValue() (va)
+//@   requires wip(ma) && ma.state == maState_expectValue
+//@   assigns ma.state, ma.va.ma
+//@   returns va *plainMap__ValueAssembler
+//@   ensures[C01,C12] va == iface(&ma.va) && ma.va.ma == ma && ma.state == maState_midValue && wip(ma)
+//@   ensures[C11] ma.w == old(ma.w) && ma.w.t == old(ma.w.t) && ma.w.m == old(ma.w.m)
+
+//@ func (*plainMap__Assembler).Finish() (err)
+//@   requires wip(ma) && ma.state == maState_initial
+//@   assigns ma.state
+//@   ensures[C01,C12] err == nil && ma.state == maState_finished && mapinv(ma.w, len(ma.w.t))
+
+//@ func (*plainMap__KeyAssembler).AssignString(v) (err)
+//@   requires mka != nil && wip(mka.ma) && mka.ma.state == maState_midKey
+//@   assigns mka.ma, old(mka.ma).state, old(mka.ma).w.t, cells(old(mka.ma).w.t)
+//@   ensures[C12] indom(old(mka.ma.w.m), v) ==> iserr(err, "datamodel.ErrRepeatedMapKey") && old(mka.ma).state == maState_initial && old(mka.ma).w.t == old(mka.ma.w.t) && wip(old(mka.ma))
+//@   ensures[C01,C12] !indom(old(mka.ma.w.m), v) ==> err == nil && old(mka.ma).state == maState_expectValue
+//@         && len(old(mka.ma).w.t) == old(len(mka.ma.w.t)) + 1 && old(mka.ma).w.t[len(old(mka.ma).w.t)-1].k == v
+//@   ensures[C01,C12] !indom(old(mka.ma.w.m), v) ==> wip(old(mka.ma))
+//@   ensures[C01,C12] !indom(old(mka.ma.w.m), v) ==> (forall i mathint :: 0 <= i && i < old(len(mka.ma.w.t)) ==> old(mka.ma).w.t[i] == old(mka.ma.w.t[i]))
+//@   ensures[C11,C12] mka.ma == nil
+//@   ensures[C11] old(mka.ma).w == old(mka.ma.w) && old(mka.ma).w.m == old(mka.ma.w.m) && (root(old(mka.ma).w.t) == old(root(mka.ma.w.t)) || fresh(old(mka.ma).w.t))
+
+//@ func (*plainMap__ValueAssembler).AssignNode(v) (err)
+//@   requires mva != nil && wip(mva.ma) && mva.ma.state == maState_midValue && v != nil
+//@   assigns mva.ma, old(mva.ma).state, cells(old(mva.ma).w.t), map(old(mva.ma).w.m)
+//@   ensures[C01,C12] err == nil && old(mva.ma).state == maState_initial && wip(old(mva.ma))
+//@   ensures[C01,C12] len(old(mva.ma).w.t) == old(len(mva.ma.w.t)) && old(mva.ma).w.t[len(old(mva.ma).w.t)-1].v == v
+//@         && old(mva.ma).w.t[len(old(mva.ma).w.t)-1].k == old(mva.ma.w.t[len(mva.ma.w.t)-1].k)
+//@   ensures[C01,C12] forall i mathint :: 0 <= i && i < old(len(mva.ma.w.t)) - 1 ==> old(mva.ma).w.t[i] == old(mva.ma.w.t[i])
+//@   ensures[C11,C12] mva.ma == nil
+//@   ensures[C11] old(mva.ma).w == old(mva.ma.w) && old(mva.ma).w.m == old(mva.ma.w.m) && old(mva.ma).w.t == old(mva.ma.w.t)
+
+//@ func (*plainMap__ValueAssembler).AssignInt(v) (err)
+//@   requires mva != nil && wip(mva.ma) && mva.ma.state == maState_midValue
+//@   assigns mva.ma, old(mva.ma).state, cells(old(mva.ma).w.t), map(old(mva.ma).w.m)
+//@   ensures[C01,C12] err == nil && old(mva.ma).state == maState_initial && wip(old(mva.ma)) && len(old(mva.ma).w.t) == old(len(mva.ma.w.t))
+//@   ensures[C01] dyntype(old(mva.ma).w.t[len(old(mva.ma).w.t)-1].v, "*plainInt") && *unbox(old(mva.ma).w.t[len(old(mva.ma).w.t)-1].v, "*plainInt") == v
+
+//@ func (*plainMap__ValueAssembler).AssignString(v) (err)
+//@   requires mva != nil && wip(mva.ma) && mva.ma.state == maState_midValue
+//@   assigns mva.ma, old(mva.ma).state, cells(old(mva.ma).w.t), map(old(mva.ma).w.m)
+//@   ensures[C01,C12] err == nil && old(mva.ma).state == maState_initial && wip(old(mva.ma)) && len(old(mva.ma).w.t) == old(len(mva.ma.w.t))
+//@   ensures[C01] dyntype(old(mva.ma).w.t[len(old(mva.ma).w.t)-1].v, "*plainString") && *unbox(old(mva.ma).w.t[len(old(mva.ma).w.t)-1].v, "*plainString") == v
+
+//@ func (*plainMap__ValueAssembler).AssignBool(v) (err)
+//@   requires mva != nil && wip(mva.ma) && mva.ma.state == maState_midValue
+//@   assigns mva.ma, old(mva.ma).state, cells(old(mva.ma).w.t), map(old(mva.ma).w.m)
+//@   ensures[C01,C12] err == nil && old(mva.ma).state == maState_initial && wip(old(mva.ma)) && len(old(mva.ma).w.t) == old(len(mva.ma.w.t))
+//@   ensures[C01] dyntype(old(mva.ma).w.t[len(old(mva.ma).w.t)-1].v, "*plainBool") && *unbox(old(mva.ma).w.t[len(old(mva.ma).w.t)-1].v, "*plainBool") == v
+
+//@ func (*plainMap__ValueAssembler).BeginMap(sizeHint) (ma, err)
+//@   requires mva != nil && wip(mva.ma) && mva.ma.state == maState_midValue && sizeHint <= 1099511627776
+//@   assigns nothing
+//@   ensures[C01,C12] err == nil && fresh(ma) && dyntype(ma, "*plainMap__ValueAssemblerMap")
+//@   ensures[C01,C12] unbox(ma, "*plainMap__ValueAssemblerMap").p == mva.ma && wip(&unbox(ma, "*plainMap__ValueAssemblerMap").ca)
+//@         && unbox(ma, "*plainMap__ValueAssemblerMap").ca.state == maState_initial && len(unbox(ma, "*plainMap__ValueAssemblerMap").ca.w.t) == 0 && fresh(unbox(ma, "*plainMap__ValueAssemblerMap").ca.w)
+
+//@ func (*plainMap__ValueAssemblerMap).Finish() (err)
+//@   requires ma != nil && wip(&ma.ca) && ma.ca.state == maState_initial && wip(ma.p) && ma.p.state == maState_midValue && ma.p.va.ma == ma.p
+//@   requires ma.ca.w != ma.p.w && &ma.ca != ma.p && ma.ca.w.m != ma.p.w.m && root(ma.ca.w.t) != root(ma.p.w.t)
+//@   assigns ma.ca.state, ma.ca.w, ma.p.va.ma, ma.p.state, cells(ma.p.w.t), map(ma.p.w.m)
+//@   ensures[C01,C12] err == nil && ma.ca.w == nil && ma.ca.state == maState_finished && ma.p.state == maState_initial && wip(ma.p)
+//@   ensures[C01,C12] ma.p.w.t[len(ma.p.w.t)-1].v == iface(old(ma.ca.w)) && len(ma.p.w.t) == old(len(ma.p.w.t)) && mapinv(old(ma.ca.w), len(old(ma.ca.w).t))
+//@   ensures[C11] ma.p.va.ma == nil
+
+//@ func (*plainMap__Assembler).AssignNode(v) (err)
+//@   requires na != nil && na.w != nil && na.state == maState_initial && v != nil
+//@   requires dyntype(v, "*plainMap") ==> unbox(v, "*plainMap") != nil
+//@   requires datamodel.vlen(v.val) <= 1099511627776
+//@   ensures[C01,C11] dyntype(v, "*plainMap") ==> err == nil && na.state == maState_finished && na.w.t == unbox(v, "*plainMap").t && na.w.m == unbox(v, "*plainMap").m
+//@   ensures[C11] dyntype(v, "*plainMap") ==> unbox(v, "*plainMap").t == old(unbox(v, "*plainMap").t) && unbox(v, "*plainMap").m == old(unbox(v, "*plainMap").m)
+//@   ensures[C12] !dyntype(v, "*plainMap") && datamodel.vkind(v.val) != datamodel.Kind_Map ==> iserr(err, "datamodel.ErrWrongKind")
+//@   ensures[C01] !dyntype(v, "*plainMap") && err == nil ==> na.state == maState_finished && mapinv(na.w, len(na.w.t)) && len(na.w.t) == datamodel.vlen(v.val)
+//@   ensures[C01] !dyntype(v, "*plainMap") && err == nil ==> (forall j mathint :: 0 <= j && j < len(na.w.t) ==> na.w.t[j].k == datamodel.vkeystr(v.val, j) && na.w.t[j].v.val == datamodel.vchild(v.val, j))
+//@   loop 0 assigns na.state, na.ka.ma, na.va.ma, na.w.t, cells(na.w.t), map(na.w.m), itr.pos
+//@   loop 0 invariant wip(na) && na.state == maState_initial && na.w == old(na.w) && itr != nil && itr.src == v.val && len(na.w.t) == itr.pos && itr.pos <= datamodel.vlen(v.val) && fresh(na.w.t) && fresh(na.w.m) && na.w.m == old(na.w).m
+//@   loop 0 invariant forall j mathint :: 0 <= j && j < len(na.w.t) ==> na.w.t[j].k == datamodel.vkeystr(v.val, j) && na.w.t[j].v.val == datamodel.vchild(v.val, j)
+
+// ---- plainList ----
+
+//@ pred listwip(la *plainList__Assembler) = la != nil && la.w != nil && la.state <= laState_finished
+//@   && (forall i mathint :: 0 <= i && i < len(la.w.x) ==> la.w.x[i] != nil)
+
+//@ func (*plainList).Length() (l)
+//@   requires n != nil
+//@   assigns nothing
+//@   ensures[C01] l == len(n.x)
+
+//@ func (*plainList).LookupByIndex(idx) (r, err)
+//@   requires n != nil
+//@   assigns nothing
+//@   ensures[C01] 0 <= idx && idx < len(n.x) ==> err == nil && r == n.x[idx]
+//@   ensures[C01] !(0 <= idx && idx < len(n.x)) ==> r == nil && iserr(err, "datamodel.ErrNotExists")
+
+//@ func (*plainList).ListIterator() (it)
+//@   requires n != nil
+//@   assigns nothing
+//@   ensures[C01,C11] fresh(it) && dyntype(it, "*plainList_ListIterator") && unbox(it, "*plainList_ListIterator").n == n && unbox(it, "*plainList_ListIterator").idx == 0
+
+//@ func (*plainList_ListIterator).Done() (d)
+//@   requires itr != nil && itr.n != nil
+//@   assigns nothing
+//@   ensures[C01] d == (itr.idx >= len(itr.n.x))
+
+//@ func (*plainList_ListIterator).Next() (idx, v, err)
+//@   requires itr != nil && itr.n != nil && 0 <= itr.idx
+//@   assigns itr.idx
+//@   ensures[C01] old(itr.idx) < len(itr.n.x) ==> err == nil && idx == old(itr.idx) && v == itr.n.x[old(itr.idx)] && itr.idx == old(itr.idx) + 1
+//@   ensures[C01] old(itr.idx) >= len(itr.n.x) ==> iserr(err, "datamodel.ErrIteratorOverread") && v == nil && idx == 0 - 1 && itr.idx == old(itr.idx)
+
+//@ func (Prototype__List).NewBuilder() (nb)
+//@   ensures[C01,C11] fresh(nb) && dyntype(nb, "*plainList__Builder")
+//@   ensures[C01] unbox(nb, "*plainList__Builder").plainList__Assembler.state == laState_initial && fresh(unbox(nb, "*plainList__Builder").plainList__Assembler.w)
+
+//@ func (*plainList__Builder).Build() (n)
+//@   requires nb != nil && nb.plainList__Assembler.state == laState_finished
+//@   assigns nothing
+//@   ensures[C01,C12] n == iface(nb.plainList__Assembler.w)
+
+//@ func (*plainList__Builder).Reset()
+//@   requires nb != nil
+//@   assigns nb.plainList__Assembler
+//@   ensures[C11] fresh(nb.plainList__Assembler.w) && nb.plainList__Assembler.state == laState_initial && nb.plainList__Assembler.va.la == nil
+
+//@ func (*plainList__Assembler).BeginList(sizeHint) (la, err)
+//@   requires na != nil && na.w != nil && na.state == laState_initial && sizeHint <= 1099511627776
+//@   assigns na.w.x
+//@   ensures[C01,C12] err == nil && la == iface(na) && listwip(na) && len(na.w.x) == 0 && na.state == laState_initial
+//@   ensures[C11] fresh(na.w.x)
+
+//@ func (*plainList__Assembler).AssembleValue() (va)
+//@   requires listwip(la) && la.state == laState_initial
+//@   assigns la.state, la.va.la
+//@   ensures[C01,C12] va == iface(&la.va) && la.va.la == la && la.state == laState_midValue && listwip(la) && la.w == old(la.w) && la.w.x == old(la.w.x)
+
+//@ func (*plainList__Assembler).Finish() (err)
+//@   requires listwip(la) && la.state == laState_initial
+//@   assigns la.state
+//@   ensures[C01,C12] err == nil && la.state == laState_finished
+
+//@ func (*plainList__ValueAssembler).AssignNode(v) (err)
+//@   requires lva != nil && listwip(lva.la) && lva.la.state == laState_midValue && v != nil
+//@   assigns lva.la, old(lva.la).state, old(lva.la).w.x, cells(old(lva.la).w.x)
+//@   ensures[C01,C12] err == nil && old(lva.la).state == laState_initial && listwip(old(lva.la))
+//@   ensures[C01,C12] len(old(lva.la).w.x) == old(len(lva.la.w.x)) + 1 && old(lva.la).w.x[len(old(lva.la).w.x)-1] == v
+//@   ensures[C01,C12] forall i mathint :: 0 <= i && i < old(len(lva.la.w.x)) ==> old(lva.la).w.x[i] == old(lva.la.w.x[i])
+//@   ensures[C11,C12] lva.la == nil
+
+//@ func (*plainList__ValueAssembler).AssignInt(v) (err)
+//@   requires lva != nil && listwip(lva.la) && lva.la.state == laState_midValue
+//@   assigns lva.la, old(lva.la).state, old(lva.la).w.x, cells(old(lva.la).w.x)
+//@   ensures[C01,C12] err == nil && old(lva.la).state == laState_initial && listwip(old(lva.la)) && len(old(lva.la).w.x) == old(len(lva.la.w.x)) + 1
+//@   ensures[C01] dyntype(old(lva.la).w.x[len(old(lva.la).w.x)-1], "*plainInt") && *unbox(old(lva.la).w.x[len(old(lva.la).w.x)-1], "*plainInt") == v
+
+//@ func (*plainList__ValueAssemblerList).Finish() (err)
+//@   requires la != nil && listwip(&la.ca) && la.ca.state == laState_initial && listwip(la.p) && la.p.state == laState_midValue && la.p.va.la == la.p && la.ca.w != la.p.w
+//@   assigns la.ca.state, la.ca.w, la.p.va.la, la.p.state, la.p.w.x, cells(la.p.w.x)
+//@   ensures[C01,C12] err == nil && la.ca.w == nil && la.ca.state == laState_finished && la.p.state == laState_initial && listwip(la.p)
+//@   ensures[C01,C12] len(la.p.w.x) == old(len(la.p.w.x)) + 1 && la.p.w.x[len(la.p.w.x)-1] == iface(old(la.ca.w))
+//@   ensures[C11] la.p.va.la == nil
